@@ -164,6 +164,48 @@ def work(item):
                 s = check_config(out, solver, tw, d, nx, nrho, nsc, mask, order, script, adaptive=(mask % 3 != 0))
                 stats.append(s.ex.stats)
                 nconf += 1
+    # switch bookkeeping, one inductive step from every switch state: all five flags set (any state M), then ONE setter call (any of the 5, on or
+    # off, as the LAST call) -> Evolve integrates iff some term is enabled afterwards, and calls exactly the enabled terms
+    if (d, nx, nrho) == (2, 2, 1) or tier == 'thorough':
+        nbk = 0
+        bad_bk = None
+        for M in range(32 if nsc else 8):
+            for which in range(5):
+                if not nsc and which >= 3:
+                    continue
+                for on in (0, 1):
+                    M2 = (M | (1 << which)) if on else (M & ~(1 << which))
+                    sb = Session([{'cb': [(0, 0)]}], solver=solver)
+                    try:
+                        sb.ok('h_sys_ctor', [sb.obj[0], nx, d, nrho, nsc, T.var('ti')])
+                        sb.write_state(0, nx, d, nrho, nsc)
+                        sb.ok('h_sys_switches', [sb.obj[0], M, (which + 1) % 5])
+                        sb.ok('h_sys_switch_one', [sb.obj[0], which, on])
+                        sb.ok('h_sys_stepping', [sb.obj[0], 1, 7, 0])
+                        mark = len(sb.st.log)
+                        r = sb.call('h_sys_evolve', [sb.obj[0], T.var('dt')])
+                        lg = sb.log_since(mark)
+                        rhs_ = [e for e in lg if e[0] == 'rhs']
+                        kinds_called = set(e[1] for e in lg if e[0] == 'term')
+                        nbk += 1
+                        if r.status != 'ok' or r.retval != 0 or bool(rhs_) != bool(M2):
+                            bad_bk = (M, which, on, M2, 'Evolve %s' % ('does not integrate although a term is enabled' if M2 else 'integrates although every term is disabled'))
+                    except (SessionError, ExecError) as e:
+                        bad_bk = (M, which, on, M2, str(e)[:120])
+                    stats.append(sb.ex.stats)
+                    if bad_bk:
+                        break
+                if bad_bk:
+                    break
+            if bad_bk:
+                break
+        if bad_bk:
+            M, which, on, M2, what_ = bad_bk
+            names_ = ['Set_CoherentRhoTerms', 'Set_NonCoherentRhoTerms', 'Set_OtherRhoTerms', 'Set_GammaScalarTerms', 'Set_OtherScalarTerms']
+            out['candidates'].append({'key': 'switch-bookkeeping:%s' % names_[which], 'what': 'with the switches %s set, then %s(%s) as the last setter call (switches now %s): %s' % (
+                format(M, '05b'), names_[which], 'true' if on else 'false', format(M2, '05b'), what_), 'kind': 'bookkeeping', 'd': d, 'nx': nx, 'nrho': nrho, 'nsc': nsc, 'mask': M, 'which': which, 'on': on, 'order': 0, 'adaptive': True})
+        else:
+            out['obligations'].append({'obligation': 'switch bookkeeping d=%d nx=%d: from each of the %d switch states, each setter called last with each value (%d cases): Evolve integrates iff a term is enabled' % (d, nx, 32 if nsc else 8, nbk), 'verdict': 'holds'})
     # error propagation
     s = Session([{'cb': [(0, 0)], 'status': 5}], solver=solver)
     s.ok('h_sys_ctor', [s.obj[0], nx, d, nrho, nsc, T.var('ti')])
@@ -215,6 +257,12 @@ print(json.dumps({'rc':rc,'got':list(out)}))
         got = json.loads(p.stdout.strip().split('\n')[-1])['got']
         want = [1e-3, 1e-7, 1e-5, 1e-9, 0.5]
         return got != want, 'the real driver received (hstart, epsabs, epsrel, hmin, hmax) = %r for Set_h(1e-3), Set_abs_error(1e-7), Set_rel_error(1e-5), Set_h_min(1e-9), Set_h_max(0.5)' % (got,)
+    which_, on_ = c.get('which'), c.get('on')
+    if c.get('kind') == 'bookkeeping':
+        order = (which_ + 1) % 5
+    mask_set = mask
+    if which_ is not None:
+        mask = (mask | (1 << which_)) if on_ else (mask & ~(1 << which_))      # the switches in force during the evolution
     n = d * d
     ss = nrho * n + nsc
     G = gellmann(d)
@@ -275,6 +323,8 @@ lib.h_sys_ctor(p,nx,d,nrho,nsc,cfg['ti'])
 y=(ctypes.c_double*len(cfg['y0']))(*cfg['y0'])
 lib.h_sys_write(p,nx,d,nrho,nsc,y)
 lib.h_sys_switches(p,cfg['mask'],cfg['order'])
+if cfg.get('which') is not None:
+    lib.h_sys_switch_one.argtypes=[ctypes.c_void_p,ctypes.c_uint,ctypes.c_uint]; lib.h_sys_switch_one(p,cfg['which'],cfg['on'])
 lib.h_sys_stepping(p,cfg['adaptive'],cfg['nsteps'],cfg['stepper'])
 rcs=[]
 for dt in cfg['dts']:
@@ -290,7 +340,7 @@ print(json.dumps({'rcs':rcs,'t':lib.h_sys_get_t(p),'y':list(y)}))
     details = []
     for stepper in range(6):
         for adaptive in ((1, 0) if stepper < 5 else (1,)):
-            cfg = dict(nx=nx, d=d, nrho=nrho, nsc=nsc, ti=ti, y0=list(y0), mask=mask, order=order, adaptive=adaptive, nsteps=400, stepper=stepper, dts=dts)
+            cfg = dict(nx=nx, d=d, nrho=nrho, nsc=nsc, ti=ti, y0=list(y0), mask=mask_set, order=order, adaptive=adaptive, nsteps=400, stepper=stepper, dts=dts, which=which_, on=on_)
             p = subprocess.run([sys.executable, '-c', code, so, json.dumps(cfg)], capture_output=True, text=True, timeout=300)
             if p.returncode != 0 or not p.stdout.strip():
                 return True, 'native run crashed (stepper %d adaptive %d): %s' % (stepper, adaptive, p.stderr[-200:])
